@@ -241,6 +241,7 @@ func (c caseT) scenario() *dsched.Scenario {
 			func(x *dsched.Exec, sti any) {
 				st := sti.(*state)
 				k := c.K
+				early := false
 				idle := x.EnvGateOrIdle("cancel", func() bool {
 					m := x.Task(0)
 					if k >= whenBlocked {
@@ -248,9 +249,15 @@ func (c caseT) scenario() *dsched.Scenario {
 						// instructions that takes
 						return m != nil && (m.Ended() || x.Blocked(m))
 					}
+					if m != nil && m.Points < k && !m.Ended() && x.Blocked(m) {
+						// the main task blocks before its k-th instruction: with a spinning child the system never
+						// goes idle, so this is the last instant there is
+						early = true
+						return true
+					}
 					return m != nil && (m.Points >= k || m.Ended())
 				})
-				st.idleCancel = idle
+				st.idleCancel = idle || early
 				if m := x.Task(0); m != nil {
 					atomic.StoreInt32(&st.pointsAtCancel, int32(m.Points))
 				}
